@@ -1,5 +1,162 @@
+/-
+Driver operations for C05: the model of `Representation` executed over ℚ and over ℤ.
+One operation = one whole scenario (history of generator assignments, then queries), because
+the line protocol is stateless.
+-/
 import GT.Base.JsonQ
-open Lean GT.J
+import GT.Model.Rep
+import GT.Lemmas.Rep
+open Lean GT.J GT GT.RepW
 namespace GT.Driver.C05
-def ops : List (String × Handler) := []
+
+/-- ring-specific I/O and the instantiation of the `utils.invert` contract -/
+structure RingIO (K : Type) [CommRing K] [Inhabited K] where
+  parse : Json → J.R K
+  out : K → Json
+  invert : {n : ℕ} → DMat n n K → Option (DMat n n K)
+  half : Option K
+  /-- `rep.astype(float)`: the entrywise embedding into ℚ -/
+  toQ : K → ℚ
+
+def qIO : RingIO ℚ := ⟨J.toQ, ofQ, fun A => Rep.invertG A, some (1 / 2), id⟩
+def zIO : RingIO ℤ := ⟨int, fun z => .str (toString z), fun A => Rep.invertZG A, none, Int.cast⟩
+
+section
+variable {K : Type} [CommRing K] [Inhabited K] (io : RingIO K)
+
+def dmat (n : ℕ) (j : Json) : J.R (DMat n n K) := do
+  let rows ← arr j
+  if rows.size ≠ n then throw "ValueError"
+  let a ← rows.mapM fun r => do
+    let es ← arr r
+    if es.size ≠ n then throw "ValueError"
+    es.mapM io.parse
+  return ⟨a⟩
+
+def outMat {m n : ℕ} (A : DMat m n K) : Json :=
+  .arr (Array.ofFn fun (i : Fin m) => .arr (Array.ofFn fun (j : Fin n) => io.out (A.toMatrix i j)))
+
+def outRes (r : M? Json) : Json :=
+  match r with
+  | .ok v => Json.mkObj [("ok", v)]
+  | .error e => Json.mkObj [("err", .str e)]
+
+def lift {α : Type} (x : M? α) : J.R α := x
+
+def optBool (j : Json) (k : String) : Option Bool :=
+  match j.getObjVal? k with
+  | .ok (.bool b) => some b
+  | _ => none
+
+/-- replay a history of `rep[g] = M` / `rep.set_generator(g, M, compute_inverse=…)` -/
+def build (n : ℕ) (j : Json) : J.R (Rep n K) := do
+  let simple := (optBool j "simple").getD true
+  let rels ← (← arr (fieldD j "relations" (.arr #[]))).mapM str
+  let hist ← arr (← field j "hist")
+  let mut ρ : Rep n K := { parseSimple := simple, relations := rels.toList.map (parseWord true) }
+  for h in hist do
+    let g ← strf h "g"
+    let A ← dmat io n (← field h "m")
+    let ci := (optBool h "inv").getD true
+    ρ ← lift (ρ.setGenerator io.invert g A ci)
+  return ρ
+
+def evalWords {p : ℕ} (σ : Rep p K) (q : Json) : M? Json := do
+  let ws ← (do (← arr (fieldD q "ws" (.arr #[]))).mapM str : J.R _)
+  let simple := optBool q "evsimple"
+  let vals ← ws.toList.mapM fun w => σ.wordValueS w simple
+  pure (Json.mkObj [("gens", .arr (σ.gens.map (fun kv => Json.str kv.1)).toArray),
+                    ("vals", .arr (vals.map (outMat io)).toArray)])
+
+def derived (n : ℕ) (ρ : Rep n K) (q : Json) : M? Json := do
+  let kind ← strf q "kind"
+  match kind with
+  | "copy" => evalWords io (← ρ.copy) q
+  | "conjugate" =>
+    let C ← dmat io n (← field q "C")
+    match q.getObjVal? "Ci" with
+    | .ok ci => evalWords io (← ρ.conjugate C (← dmat io n ci)) q
+    | .error _ => evalWords io (← ρ.conjugate' io.invert C) q
+  | "dual" => evalWords io (← ρ.dual io.invert) q
+  | "astype" => evalWords qIO (← ρ.astype io.toQ) q
+  | "subgroup" =>
+    let ps ← (do (← arr (← field q "pairs")).mapM fun p => do
+      let a ← arr p
+      if a.size ≠ 2 then throw "bad pair"
+      pure ((← str a[0]!), parseWord ρ.parseSimple (← str a[1]!)) : J.R _)
+    let ci := (optBool q "inv").getD true
+    evalWords io (← ρ.subgroup io.invert ps.toList ci) q
+  | "tensor" =>
+    let oj ← field q "other"
+    let p ← natf oj "n"
+    let σ ← build io p oj
+    evalWords io (← ρ.tensorProduct io.invert σ) q
+  | "sym2" =>
+    match io.half with
+    | none => throw "no-half"
+    | some h => evalWords io (← ρ.symmetricSquare h io.invert io.invert) q
+  | "gln_adjoint" => evalWords io (← ρ.glnAdjoint) q
+  | "sln_adjoint" =>
+    match n, ρ with
+    | 0, _ => throw "ValueError"
+    | _ + 1, ρ => evalWords io (← Rep.slnAdjoint ρ) q
+  | _ => throw s!"unknown derived kind {kind}"
+
+def query (n : ℕ) (ρ : Rep n K) (q : Json) : M? Json := do
+  let kind ← strf q "q"
+  match kind with
+  | "word" => pure (outMat io (← ρ.wordValueS (← strf q "w") (optBool q "simple")))
+  | "gens" => pure (.arr (ρ.gens.map fun kv => Json.arr #[.str kv.1, outMat io kv.2]).toArray)
+  | "asym" => pure (.arr (ρ.asymGens.map Json.str).toArray)
+  | "derived" => derived io n ρ q
+  | "diff" =>
+    let bl ← ρ.differential (parseWord true (← strf q "w"))
+    pure (.arr (bl.map (outMat io)).toArray)
+  | "diffat" =>
+    pure (outMat io (← ρ.differentialAt (parseWord true (← strf q "w")) (← strf q "g")))
+  | "cocycle" =>
+    let rows ← ρ.cocycleMatrix
+    pure (.arr (rows.map fun bl => Json.arr (bl.map (outMat io)).toArray).toArray)
+  | "coboundary" => pure (.arr ((← ρ.coboundaryMatrix).map (outMat io)).toArray)
+  | "cocob" =>
+    let rows ← ρ.cocycleMatrix
+    let cb ← ρ.coboundaryMatrix
+    pure (.arr (rows.map fun bl => outMat io (Rep.blockDot bl cb)).toArray)
+  | _ => throw s!"unknown query {kind}"
+
+def run (j : Json) : J.R Json := do
+  let n ← natf j "n"
+  let ρ ← build io n j
+  let qs ← arr (fieldD j "q" (.arr #[]))
+  return .arr (qs.map fun q => outRes (query io n ρ q))
+
+end
+
+def runOp (j : Json) : J.R Json := do
+  match (fieldD j "ring" (.str "Q")) with
+  | .str "Z" => run zIO j
+  | _ => run qIO j
+
+/-! ### `utils/words.py` -/
+
+def outWord (w : Word) : Json := .str (String.join w)
+
+def invgenOp (j : Json) : J.R Json := do return .str (invertGen (← strf j "g"))
+def finvOp (j : Json) : J.R Json := do
+  return outWord (formalInverse invertGen (parseWord true (← strf j "w")))
+def simplifyOp (j : Json) : J.R Json := do
+  return outWord (simplifyWord invertGen (parseWord true (← strf j "w")))
+def parseOp (j : Json) : J.R Json := do
+  return .arr ((parseWord (← boolf j "simple") (← strf j "w")).map Json.str).toArray
+def validOp (j : Json) : J.R Json := do return .bool (validName (← strf j "g"))
+def foxOp (j : Json) : J.R Json := do
+  match foxDeriv invertGen (← strf j "g") (parseWord true (← strf j "w")) with
+  | none => throw "IndexError"
+  | some d => return .arr (d.map fun kc => Json.arr #[outWord kc.1, .str (toString kc.2)]).toArray
+def commOp (j : Json) : J.R Json := do
+  return outWord (commutator invertGen (parseWord true (← strf j "u")) (parseWord true (← strf j "v")))
+
+def ops : List (String × Handler) :=
+  [("c05.run", runOp), ("c05.invgen", invgenOp), ("c05.finv", finvOp), ("c05.simplify", simplifyOp),
+   ("c05.parse", parseOp), ("c05.valid", validOp), ("c05.fox", foxOp), ("c05.comm", commOp)]
 end GT.Driver.C05
